@@ -28,6 +28,9 @@ def run(res, tier):
     n3, bad3 = direct.c07_divergence(rng)
     bad = bad + bad3
     ev += n3
+    n4, bad4 = direct.c07_inplace_substage(rng)
+    bad = bad + bad4
+    ev += n4
     res.coverage.update(
         divergence_branch_cases=n3,
         evaluations=len(batch.meta) + ev, distinct_nontrivial=distinct + ev,
